@@ -3,3 +3,4 @@ import Proofs.C02FourPoint
 import Proofs.C02Fkm
 import Proofs.ThreePointC02
 import Proofs.RainflowCorollaries
+import Proofs.RainflowLiteral
